@@ -1539,6 +1539,68 @@ fn main() {
                 }
             }
         }
+        "interfere" => {
+            // A malformed message must not affect valid messages queued behind it in the same frame on the
+            // same channel (from another client): junk from an attacker, then a valid message of the
+            // well-behaved client, one server frame, the valid message must be received exactly as sent.
+            let items = rig.corpus.items.clone();
+            let mut junks: Vec<Vec<u8>> = (0..=255u8).map(|b| vec![b]).collect();
+            junks.push(vec![]);
+            junks.push(vec![0xff; 3]);
+            junks.push(vec![0x80, 0x80, 0x80, 0x80, 0x80, 0x20]);
+            junks.push(vec![0x01, 0xff, 0xff, 0xff, 0xff, 0x07]);
+            let mut cases = 0u64;
+            let mut failures: Vec<Value> = Vec::new();
+            let key = |e: &Entry| (e.ch, e.vals.clone(), e.target.map(|t| t.to_bits()));
+            'outer: for (ch, bytes, v) in items.iter().filter(|(ch, _, _)| *ch != CH_ACK && *ch != CH_HASH) {
+                for (j, junk) in junks.iter().enumerate() {
+                    let auth = j % 2 == 0;
+                    if cases < from || cases > to {
+                        cases += 1;
+                        continue;
+                    }
+                    cases += 1;
+                    let ge = rig.entity_of(GOOD);
+                    rig.take_log();
+                    if !rig.sim.junk_c2s(att_name(auth), *ch, junk.clone()) {
+                        rig.reset_att(auth);
+                        rig.sim.junk_c2s(att_name(auth), *ch, junk.clone());
+                    }
+                    rig.sim.junk_c2s(GOOD, *ch, bytes.clone());
+                    PANIC_MSG.lock().unwrap().clear();
+                    rig.sim.server_frame(false, 0);
+                    rig.frames += 1;
+                    if rig.sim.server_panicked {
+                        failures.push(json!({"ch": ch, "junk": junk, "auth": auth, "what": "panic", "msg": PANIC_MSG.lock().unwrap().clone()}));
+                        rig = Rig::new(t0);
+                        continue;
+                    }
+                    let log = rig.take_log();
+                    let mut want: Vec<_> = expected_entries(*ch, ge, v).iter().map(key).collect();
+                    let mut got: Vec<_> = log.entries.iter().filter(|e| e.client == ge).map(key).collect();
+                    want.sort();
+                    got.sort();
+                    if want != got {
+                        failures.push(json!({"ch": ch, "junk": junk, "auth": auth, "what": "valid message behind the junk was not received as sent",
+                                             "expected": format!("{want:?}"), "got": format!("{got:?}")}));
+                        if failures.len() >= max_mismatches {
+                            break 'outer;
+                        }
+                    }
+                    for i in 1..3 {
+                        for q in &mut rig.sim.clients[i].s2c {
+                            q.clear();
+                        }
+                    }
+                    if rig.frames > REBUILD_EVERY {
+                        rig = Rig::new(t0);
+                    }
+                }
+            }
+            journal(&json!({"t": "done"}));
+            println!("{}", json!({"mode": "interfere", "cases": cases, "failure_count": failures.len(), "failures": failures}));
+            return;
+        }
         "describe-sweep" | "describe-random" => {
             // the replayable description of generated inputs from..=to (for incidents that killed a run)
             let out: Vec<Value> = (from..=to.min(from + 10_000))
